@@ -206,12 +206,31 @@ def runOps (P : Prims) (cfg : Cfg) : St → List String → List String → List
       match ofHex tgt, ofHex path, hexOpt hdr with
       | some tgt, some path, some hdr =>
         if !methodOk m then runOps P cfg st rest ("bad-op" :: acc) else
-        let req : Req := { method := str m, target := tgt, path := path, auth := hdr, h2ext := h2 ≠ "0" }
+        let req : Req := { method := str m, target := tgt, path := path, auth := hdr, protocol := h2 ≠ "0" }
         let r := handle P cfg st req
         let rule := (findRule cfg.rules path 0).map (·.2)
         -- challenges are rendered with the clock of the request
         runOps P cfg r.1 rest ((renderOutcome rule st r.2 ++ "|" ++ renderCache r.1.cache) :: acc)
       | _, _, _ => runOps P cfg st rest ("bad-op" :: acc)
+    | ["h", _idmode, flds] =>
+      let parsed : Option (List (Bytes × Bytes)) :=
+        ((flds.splitOn ";").filter (· ≠ "")).foldr (fun f acc =>
+          match acc, f.splitOn ":" with
+          | some l, [k, v] => (match ofHex k, ofHex v with
+                               | some k, some v => some ((k, v) :: l)
+                               | _, _ => none)
+          | _, _ => none) (some [])
+      match parsed with
+      | none => runOps P cfg st rest ("bad-op" :: acc)
+      | some fields =>
+        match h2Request fields with
+        | .error s => runOps P cfg st rest (("h2:" ++ toString s) :: acc)
+        | .ok req =>
+          let r := handle P cfg st req
+          let rule := (findRule cfg.rules req.path 0).map (·.2)
+          runOps P cfg r.1 rest (("m=" ++ asString req.method ++ ",x=" ++ (if req.h2ext then "1" else "0") ++
+            ",t=" ++ toHex req.target ++ ",p=" ++ toHex req.path ++ "/" ++
+            renderOutcome rule st r.2 ++ "|" ++ renderCache r.1.cache) :: acc)
     | ["a", dt] =>
       match dt.toNat? with
       | some dt =>
